@@ -26,6 +26,12 @@ const (
 )
 
 func resolveErgoDir(start string) (string, error) {
+	// Walk up from an absolute path: for a relative start such as "."
+	// filepath.Dir never leaves the spelling it was given.
+	start, err := filepath.Abs(start)
+	if err != nil {
+		return "", err
+	}
 	current := start
 	for {
 		candidate := filepath.Join(current, dataDirName)
